@@ -392,6 +392,17 @@ func runC14(id string) int {
 					cs.Predicate, cs.Pass = k, true
 				}
 				c14Exec(r, cs)
+				if res == "JSONResolver" {
+					// the same with a second type after the value's own,
+					// one that has a callback too: what the first callback
+					// returns says nothing about the type name
+					second := keys[(ki+3)%len(keys)]
+					cs.TypeField = []interface{}{O.Types[k].Name, O.Types[second].Name}
+					cs.Callbacks = []string{second, k, k}
+					c14Exec(r, cs)
+					cs.Callbacks = []string{k}
+					c14Exec(r, cs)
+				}
 			}
 		}
 	}
